@@ -40,8 +40,25 @@ Definition modelled_panic_sites : list site := [
   ("unic-locale-impl/src/extensions/unicode.rs", "parse_key", "index", "key[1]")
 ].
 
+(* coverage is by (file, kind, text) WITH MULTIPLICITY, not by the enclosing function: a panic-capable expression
+   may move into a helper function of the same file (a common harmless refactor) without disturbing the
+   obligation, but one more occurrence of it - a second `.unwrap()`, another `v[0]`, another `.insert(idx,` - is
+   not covered by the model and fails it *)
+Definition same_site (a b : site) : bool :=
+  match a, b with
+  | (a1, _, a3, a4), (b1, _, b3, b4) => String.eqb a1 b1 && String.eqb a3 b3 && String.eqb a4 b4
+  end.
+Definition count_site (s : site) (l : list site) : nat := List.length (filter (same_site s) l).
 Definition panic_sites_covered : bool :=
-  forallb (fun s => existsb (site_eqb s) modelled_panic_sites) src_panic_sites.
+  forallb (fun s => Nat.leb (count_site s src_panic_sites) (count_site s modelled_panic_sites)) src_panic_sites.
 Lemma sites_covered : panic_sites_covered = true.
 Proof. vm_compute. reflexivity. Qed.
+(* the obligation is not vacuous: an extra occurrence, or an expression the model does not know, fails it *)
+Example sites_rule :
+  let extra := ("unic-langid-impl/src/likelysubtags/mod.rs", "minimize", "unwrap", ".unwrap()") in
+  let moved := ("unic-langid-impl/src/likelysubtags/mod.rs", "some_helper", "unwrap", ".unwrap()") in
+  Nat.leb (count_site extra (extra :: src_panic_sites)) (count_site extra modelled_panic_sites) = false
+  /\ Nat.leb (count_site moved [moved]) (count_site moved modelled_panic_sites) = true
+  /\ count_site ("unic-locale-impl/src/extensions/private.rs", "add_tag", "vec_insert", ".insert(idx,") modelled_panic_sites = 0%nat.
+Proof. vm_compute. repeat split; reflexivity. Qed.
 
